@@ -129,17 +129,20 @@ class SearchKey(Parseable[bytes]):
     def __bytes__(self) -> bytes:
         raise NotImplementedError
 
+    def _key(self) -> tuple[Any, ...]:
+        return (self.value, self.filter, self.inverse)
+
     def __hash__(self) -> int:
-        return hash((self.value, self.filter, self.inverse))
+        return hash(self._key())
 
     def __eq__(self, other: Any) -> bool:
         if isinstance(other, SearchKey):
-            return hash(self) == hash(other)
+            return self._key() == other._key()
         return super().__eq__(other)
 
     def __ne__(self, other: Any) -> bool:
         if isinstance(other, SearchKey):
-            return hash(self) != hash(other)
+            return self._key() != other._key()
         return super().__ne__(other)
 
     @classmethod
